@@ -53,9 +53,7 @@ Init ==
     snd     |-> << >>,     \* sender table: sequence of [s, kind, st, id]  st: live|done|dropped
     relOwed |-> 0,         \* releases/drops of receipts whose PUBREL is still due
     relIds  |-> {},        \* v5: ids whose PUBREL is due
-    pubrels |-> {},        \* ids for which a PUBREL was written
-    orphans |-> 0          \* QoS 2 send futures dropped before they produced a receipt: the
-                           \* library releases those publishes on its own
+    pubrels |-> {}         \* ids for which a PUBREL was written
   ]
 
 Healthy(m) == m.est /\ ~m.term /\ ~m.misack
@@ -133,15 +131,12 @@ OnOut(m, ev) ==
          LET m1 == [m EXCEPT !.owed = Append(@, [id |-> ev.id, a |-> "PUBCOMP"]),
                              !.q2wait = @ \ {ev.id},
                              !.pubrels = @ \cup {ev.id},
-                             !.relOwed = IF @ > 0 /\ (m.ver # 5 \/ ev.id \in m.relIds) THEN @ - 1 ELSE @,
-                             !.orphans = IF (m.relOwed = 0 \/ (m.ver = 5 /\ ev.id \notin m.relIds)) /\ @ > 0
-                                           THEN @ - 1 ELSE @,
+                             !.relOwed = IF @ > 0 THEN @ - 1 ELSE 0,
                              !.relIds = @ \ {ev.id}]
          IN IF ~Healthy(m) THEN m1
             ELSE IF ev.id \notin m.q2wait THEN Fail(m1, "C14:pubrel-without-pubrec-or-duplicate")
-            ELSE IF m.relOwed = 0 /\ m.orphans = 0 THEN Fail(m1, "C14:pubrel-nobody-released")
-            ELSE IF m.ver = 5 /\ ev.id \notin m.relIds /\ m.orphans = 0
-              THEN Fail(m1, "C14:pubrel-for-wrong-id")
+            ELSE IF m.relOwed = 0 THEN Fail(m1, "C14:pubrel-nobody-released")
+            ELSE IF m.ver = 5 /\ ev.id \notin m.relIds THEN Fail(m1, "C14:pubrel-for-wrong-id")
             ELSE m1
     [] ev.k = "DISCONNECT" -> [m EXCEPT !.term = TRUE]
     [] OTHER -> m
@@ -178,8 +173,8 @@ OnSendDone(m, ev) ==
      IF want = "NONE" THEN m0
      ELSE
        \* v5 results carry the packet id; a release future is bound to its receipt's id
-       LET needId == IF m.ver # 5 THEN 0
-                     ELSE IF kind = "rel" THEN m.snd[i].id ELSE ev.id
+       LET needId == IF kind = "rel" THEN m.snd[i].id
+                     ELSE IF m.ver = 5 THEN ev.id ELSE 0
            ai == IdxOf(m.acks, LAMBDA a : a.a = want /\ (needId = 0 \/ a.id = needId))
        IN IF ai = 0
             THEN Fail(m0, IF kind \in {"q2", "rel"}
@@ -231,10 +226,7 @@ Step(m, ev) ==
     [] ev.e = "send_call" -> OnSendCall(m, ev)
     [] ev.e = "send_done" -> OnSendDone(m, ev)
     [] ev.e = "send_drop" ->
-         LET i == SndIdx(m, ev.s) IN
-         IF i = 0 THEN m
-         ELSE [m EXCEPT !.snd[i].st = "dropped",
-                        !.orphans = IF m.snd[i].kind = "q2" /\ m.snd[i].st = "live" THEN @ + 1 ELSE @]
+         LET i == SndIdx(m, ev.s) IN IF i = 0 THEN m ELSE [m EXCEPT !.snd[i].st = "dropped"]
     [] ev.e = "release" -> OnRelease(m, ev)
     [] ev.e = "receipt_drop" -> OnReceiptDrop(m, ev)
     [] ev.e = "ctl"     -> OnCtl(m, ev)
